@@ -62,7 +62,8 @@ Record pnode := mkPN {
   inv : N -> option N;            (* invoices: hash -> amount_msat *)
   known : N -> bool;              (* payments.contains_key(hash) *)
   led : N -> N -> N * N;          (* hash -> channel -> (incoming_sat, outgoing_sat) *)
-  chans : N -> pchan
+  chans : N -> pchan;
+  pre : N -> bool                 (* the payment record carries the preimage (RoutedPayment::preimage) *)
 }.
 
 Definition upd {A} (f : N -> A) (k : N) (v : A) : N -> A := fun x => if x =? k then v else f x.
@@ -115,10 +116,10 @@ Definition apply_one (p : pchan) (nh nc : option content) (ch : N)
 Definition apply_payments (s : pnode) (ch : N) (nh nc : option content) : pnode :=
   let '(k, l) := fold_left (apply_one (chans s ch) nh nc ch)
                            (sum_keys (chans s ch) nh nc) (known s, led s) in
-  mkPN (inv s) k l (chans s).
+  mkPN (inv s) k l (chans s) (pre s).
 
 Definition set_chan (s : pnode) (ch : N) (p : pchan) : pnode :=
-  mkPN (inv s) (known s) (led s) (upd (chans s) ch p).
+  mkPN (inv s) (known s) (led s) (upd (chans s) ch p) (pre s).
 
 Inductive pop :=
 | PAddInvoice (h amount_msat : N)
@@ -136,10 +137,10 @@ Definition restore_chan (acc : (N -> bool) * (N -> N -> N * N)) (chp : N * pchan
   fold_left (apply_one (snd chp) None None (fst chp)) (sum_keys (snd chp) None None) acc.
 
 Definition restore (s : pnode) : pnode :=
-  let k0 := fun h => match inv s h with Some _ => true | None => false end in
+  let k0 := fun h => match inv s h with Some _ => true | None => pre s h end in
   let '(k, l) := fold_left restore_chan (map (fun c => (c, chans s c)) (chan_ids nch))
                            (k0, fun _ _ => (0, 0)) in
-  mkPN (inv s) k l (chans s).
+  mkPN (inv s) k l (chans s) (pre s).
 
 Definition in_range (ch : N) : bool := ch <? N.of_nat nch.
 
@@ -154,7 +155,7 @@ Definition pstep (s : pnode) (o : pop) : pnode * bool :=
   | PAddInvoice h a =>
       match inv s h with
       | Some _ => (s, true)          (* same invoice again *)
-      | None => (mkPN (upd (inv s) h (Some a)) (upd (known s) h true) (led s) (chans s), true)
+      | None => (mkPN (upd (inv s) h (Some a)) (upd (known s) h true) (led s) (chans s) (pre s), true)
       end
   | PSignCp ch c ok =>
       if negb (in_range ch) || negb ok then (s, false)
@@ -182,17 +183,19 @@ Definition pstep (s : pnode) (o : pop) : pnode * bool :=
                  let p := chans s ch in
                  (set_chan s1 ch (mkPC (Some c) (ccur p) None), true)
            end
-  | PFulfil _ =>
+  | PFulfil h =>
       (* NodeState::htlc_fulfilled records the preimage in a payment entry that EXISTS and marks
          an issued invoice; it creates no entry and changes no in-flight amount (the balance
          register it feeds is only read under enforce_balance, which the policies here leave
-         off): nothing this model tracks moves *)
-      (s, true)
+         off).  Node::htlcs_fulfilled writes the node entry at once (b4eb03c), and the node
+         entry lists the preimages: a restart brings the record back *)
+      (mkPN (inv s) (known s) (led s) (chans s) (fun x => pre s x || ((x =? h) && known s h)), true)
   | PHeartbeat =>
       (* prune_forwarded_payments: a record without approval and without value in flight on any
          channel is dropped; approvals are pruned only after their expiry (the clock of the
          histories considered here does not reach it) *)
-      (mkPN (inv s) (fun h => known s h && negb (prunable s h)) (led s) (chans s), true)
+      (mkPN (inv s) (fun h => known s h && negb (prunable s h)) (led s) (chans s)
+            (fun h => pre s h && negb (prunable s h)), true)
   | PRestart => (restore s, true)
   end.
 
@@ -210,7 +213,7 @@ Definition empty_ct : content := mkCt [] [].
 (** channels are observed from the point where the initial commitments exist *)
 Definition pinit : pnode :=
   mkPN (fun _ => None) (fun _ => false) (fun _ _ => (0, 0))
-       (fun _ => mkPC (Some empty_ct) (Some empty_ct) None).
+       (fun _ => mkPC (Some empty_ct) (Some empty_ct) None) (fun _ => false).
 
 Fixpoint prun (s : pnode) (ops : list pop) : pnode :=
   match ops with
